@@ -26,3 +26,6 @@ CHECKS = {
 
 # properties whose thorough tier also runs the release build of the harness
 RELEASE_TOO = {'C01', 'C09'}
+
+# properties whose theorems take Unicode facts (CharLaws) as hypotheses
+CHARLAWS = {'C01', 'C02', 'C12', 'C13', 'C15'}
